@@ -1891,7 +1891,7 @@ def run_parser(chk: Check, mr: ModelRun, scratch: Path, real_leaks: set):
             sig = interp_sig(st[0], parts)
             if seen_sig(chk, sig):
                 pass
-            elif n_shrunk < 10:
+            elif n_shrunk < (10 if chk.quick else 400):      # every failing text is reduced to its class before it is named
                 n_shrunk += 1
                 parts = interp_shrink(parts, bool(job.get('sub')), bool(job['alert']), st[0], scratch)
                 sig = interp_sig(st[0], parts)
